@@ -1124,11 +1124,11 @@ func (s *Store[K, V]) Recover(version uint64, reader io.Reader) error {
 				if expire != 0 && expire < s.timerwheel.clock.NowNano() {
 					continue
 				}
-				l1 := s.policy.slru.protected
-				l2 := s.policy.slru.probation
-				if l1.len+l2.len+pentry.PolicyWeight <= int64(s.policy.slru.maxsize) {
+				// probation is loaded last and takes whatever room is left in the cache:
+				// its size is not fixed, the adaptive window may have shrunk in its favour
+				if int64(s.policy.weightedSize)+pentry.PolicyWeight <= int64(s.policy.capacity) {
 					entry := pentry.entry()
-					l2.PushBack(entry)
+					s.policy.slru.probation.PushBack(entry)
 					s.insertSimple(entry)
 					if pentry.Frequency > 0 {
 						s.policy.sketch.Addn(s.hasher.Hash(entry.key), pentry.Frequency)
